@@ -430,14 +430,17 @@ def _r4_uses(ctx):
         for cfg in cfgs:
             items = J.flatten(ctx.tree, rel, cfg)
             prev = ""
+            sets_ = {}
             for it, st in J.walk_items(items):
                 if it[0] == "text":
                     prev = it[1]
                     continue
+                if it[0] == "set" and it[1][0] == "name":
+                    sets_[it[1][1]] = it[2]        # `{% set elemname = .. %}`: a later {{ elemname }} is that expression
                 if it[0] != "out":
-                    if it[0] in ("for", "if", "set"):
-                        pass
                     continue
+                if it[1][0] == "name" and it[1][1] in sets_:
+                    it = ("out", sets_[it[1][1]]) + tuple(it[2:])
                 m = re.search(r"IDX_(ELEM_)?$", prev)
                 prev = ""
                 if not m:
